@@ -52,3 +52,8 @@ Definition write_us (ts : spec_float) : option Z :=
   obind (sf_dyadic (rn_z (mt * 1000000) et)) (fun '(my, ey) => Some (rne_int my ey))).
 
 Definition time_us (ticks divisor offset : Z) : option Z := obind (read_ts ticks divisor offset) write_us.
+
+(* legacy pcap (-l), dpkt.pcap.Reader:  tv_sec + tv_usec / 1e6  (int + int / float: the same operations as above with the seconds as offset), and for the
+   nanosecond magic  tv_sec + tv_usec / Decimal('1E9'),  an exact decimal that main.py's float(ts) rounds once *)
+Definition legacy_us (nano : bool) (sec sub : Z) : option Z :=
+  if nano then time_us (sec * 1000000000 + sub) 1000000000 0 else time_us sub 1000000 sec.
